@@ -7,8 +7,10 @@ cd "$(dirname "$0")/../.."
 # An argument "C05=mechanism words" adds a focus line naming one of the property's own mechanisms (round 2:
 # a second, different change per property); the worktree is then /tmp/seed-C05-2.
 for ARG in "$@"; do
-  ID=${ARG%%=*}; FOCUS=""; TAG=$ID
-  if [ "$ARG" != "$ID" ]; then FOCUS=${ARG#*=}; TAG=$ID-2; fi
+  ID=${ARG%%=*}; FOCUS=""; N=2
+  case "$ID" in *"#"*) N=${ID#*#}; ID=${ID%%#*};; esac
+  TAG=$ID
+  if [ "$ARG" != "${ARG%%=*}" ]; then FOCUS=${ARG#*=}; TAG=$ID-$N; fi
   git -C /repo worktree add -q --detach /tmp/seed-$TAG HEAD || exit 9
   python3 - $ID "$TAG" "$FOCUS" <<'PY'
 import json,sys
